@@ -94,19 +94,26 @@ type readObs struct {
 // reader calls the application-facing lookup API (ConsensusIndex) while the
 // engine thread and the async accepter run. Observations are judged after the
 // case against the final accepted chain (accepted blocks are final).
-func (e *engine) reader(seed uint64, stop *atomic.Bool, out *[]readObs, wg *sync.WaitGroup) {
+//
+// hammer: ask mostly for the height of the current tip, the lookup that is
+// answered from the last-accepted pointer the engine thread is replacing.
+func (e *engine) reader(seed uint64, hammer bool, stop *atomic.Bool, out *int, wg *sync.WaitGroup) {
 	defer wg.Done()
 	rng := rand.New(rand.NewPCG(seed, 77))
 	ci := e.chain.ci
-	var obs []readObs
-	for i := 0; !stop.Load(); i++ {
+	nobs := 0
+	for !stop.Load() {
 		e.amu.Lock()
 		tip := e.tipH
 		h := uint64(rng.IntN(int(tip) + 3))
+		k := rng.IntN(3)
+		if hammer && rng.IntN(10) < 8 {
+			h, k = tip, 0
+		}
 		want, have := e.accByH[h]
 		e.amu.Unlock()
 		o := readObs{h: h, tipBefore: tip, want: want}
-		switch k := rng.IntN(3); {
+		switch {
 		case k == 0:
 			o.kind = 'H'
 			b, err := ci.GetBlockByHeight(e.ctx, h)
@@ -132,45 +139,75 @@ func (e *engine) reader(seed uint64, stop *atomic.Bool, out *[]readObs, wg *sync
 				o.got, o.gotH = a.GetID(), a.GetHeight()
 			}
 		}
-		if len(obs) < 4000 {
-			obs = append(obs, o)
-		} else {
-			obs[rng.IntN(len(obs))] = o
+		e.judgeRead(o) // reads only facts that are already final
+		nobs++
+		if !hammer {
+			runtime.Gosched()
 		}
-		runtime.Gosched()
 	}
-	*out = obs
+	*out = nobs
 }
 
-func (e *engine) judgeReads(all [][]readObs) {
-	final := e.accByH
-	for _, obs := range all {
-		for _, o := range obs {
-			e.stat["concurrent_reads"]++
-			switch o.kind {
-			case 'H':
-				if o.failed {
-					if o.h <= o.tipBefore {
-						e.cc.violation("lookup-concurrent", "concurrent GetBlockByHeight(%d) failed (%s) although height %d was already accepted", o.h, o.errStr, o.tipBefore)
-					}
-					continue
-				}
-				if want, ok := final[o.h]; !ok || want != o.got || o.gotH != o.h {
-					e.cc.violation("lookup-concurrent", "concurrent GetBlockByHeight(%d) returned block %s of height %d; accepted chain has %s there", o.h, short(o.got), o.gotH, short(want))
-				}
-			case 'I':
-				if o.failed || o.got != o.want || o.gotH != o.h {
-					e.cc.violation("lookup-concurrent", "concurrent GetBlock(%s) (accepted at height %d) = (%s, h=%d, err=%v)", short(o.want), o.h, short(o.got), o.gotH, o.errStr)
-				}
-			case 'L':
-				if o.failed {
-					e.cc.violation("lookup-concurrent", "concurrent GetLastAccepted failed: %s", o.errStr)
-					continue
-				}
-				if want, ok := final[o.gotH]; !ok || want != o.got {
-					e.cc.violation("lookup-concurrent", "concurrent GetLastAccepted returned %s at height %d which is not on the accepted chain", short(o.got), o.gotH)
-				}
+// judgeRead judges one concurrent observation. Accepted blocks are final, so
+// a successful lookup must name the block the engine accepted at that height
+// (the engine publishes its decision to accByH right after Accept returns; a
+// lookup that already sees a block the model does not list yet is re-checked
+// at the end of the case).
+func (e *engine) judgeRead(o readObs) {
+	lookup := func(h uint64) (ids.ID, bool) {
+		e.amu.Lock()
+		defer e.amu.Unlock()
+		id, ok := e.accByH[h]
+		return id, ok
+	}
+	switch o.kind {
+	case 'H':
+		if o.failed {
+			if o.h <= o.tipBefore {
+				e.cc.violation("lookup-concurrent", "concurrent GetBlockByHeight(%d) failed (%s) although height %d was already accepted", o.h, o.errStr, o.tipBefore)
 			}
+			return
+		}
+		if o.gotH != o.h {
+			e.cc.violation("lookup-concurrent", "concurrent GetBlockByHeight(%d) returned block %s of height %d", o.h, short(o.got), o.gotH)
+			return
+		}
+		if want, ok := lookup(o.h); ok && want != o.got {
+			e.cc.violation("lookup-concurrent", "concurrent GetBlockByHeight(%d) returned block %s; accepted chain has %s there", o.h, short(o.got), short(want))
+		} else if !ok {
+			e.deferRead(o)
+		}
+	case 'I':
+		if o.failed || o.got != o.want || o.gotH != o.h {
+			e.cc.violation("lookup-concurrent", "concurrent GetBlock(%s) (accepted at height %d) = (%s, h=%d, err=%v)", short(o.want), o.h, short(o.got), o.gotH, o.errStr)
+		}
+	case 'L':
+		if o.failed {
+			e.cc.violation("lookup-concurrent", "concurrent GetLastAccepted failed: %s", o.errStr)
+			return
+		}
+		if want, ok := lookup(o.gotH); ok && want != o.got {
+			e.cc.violation("lookup-concurrent", "concurrent GetLastAccepted returned %s at height %d which is not on the accepted chain", short(o.got), o.gotH)
+		} else if !ok {
+			e.deferRead(o)
+		}
+	}
+}
+
+func (e *engine) deferRead(o readObs) {
+	e.amu.Lock()
+	if len(e.deferred) < 10000 {
+		e.deferred = append(e.deferred, o)
+	}
+	e.amu.Unlock()
+}
+
+// judgeDeferred re-checks, against the final chain, the observations that ran
+// ahead of the model.
+func (e *engine) judgeDeferred() {
+	for _, o := range e.deferred {
+		if want, ok := e.accByH[o.gotH]; !ok || want != o.got {
+			e.cc.violation("lookup-concurrent", "concurrent lookup (%c, height %d) returned %s at height %d which never became part of the accepted chain", o.kind, o.h, short(o.got), o.gotH)
 		}
 	}
 }
@@ -184,7 +221,13 @@ type c20Result struct {
 	sample     any
 }
 
-func runC20Case(t testing.TB, r *kit.Run, idx int, seed [2]uint64, readers int) c20Result {
+// c20Mode is the part of a case that is not derived from its seed.
+type c20Mode struct {
+	Readers int  `json:"readers"` // goroutines calling the lookup API concurrently
+	Stress  bool `json:"stress"`  // straight-line accept stream with readers asking for the tip height
+}
+
+func runC20Case(t testing.TB, r *kit.Run, idx int, seed [2]uint64, mode c20Mode) c20Result {
 	rng := rand.New(rand.NewPCG(seed[0], seed[1]))
 	sizes := []int{1, 2, 4}
 	lags := []int{0, 1, 2, 3, 6, 12}
@@ -195,7 +238,10 @@ func runC20Case(t testing.TB, r *kit.Run, idx int, seed [2]uint64, readers int) 
 		Ready:         true,
 	}
 	steps := 30 + rng.IntN(70)
-	cc := &caseCtx{r: r, prop: "C20", wit: caseWitness{Case: idx, Seed: seed, Cfg: cfg}}
+	if mode.Stress {
+		steps = 150
+	}
+	cc := &caseCtx{r: r, prop: "C20", wit: caseWitness{Case: idx, Seed: seed, Cfg: map[string]any{"vm": cfg, "mode": mode}}}
 	genesis := makeBlk(ids.Empty, 0, 1_000, uint64(idx), false, 0)
 	chain, vm, err := startVM(t, cc, cfg, genesis)
 	if err != nil {
@@ -209,14 +255,18 @@ func runC20Case(t testing.TB, r *kit.Run, idx int, seed [2]uint64, readers int) 
 
 	var stop atomic.Bool
 	var wg sync.WaitGroup
-	reads := make([][]readObs, readers)
-	for i := 0; i < readers; i++ {
+	reads := make([]int, mode.Readers)
+	for i := 0; i < mode.Readers; i++ {
 		wg.Add(1)
-		go e.reader(seed[0]+uint64(i), &stop, &reads[i], &wg)
+		go e.reader(seed[0]+uint64(i), mode.Stress, &stop, &reads[i], &wg)
 	}
 
 	e.checkLookups(true)
 	for s := 0; s < steps && !e.dead; s++ {
+		if mode.Stress {
+			e.stepStress()
+			continue
+		}
 		e.stepC20()
 		if !e.dead {
 			e.checkLookups(false)
@@ -224,12 +274,15 @@ func runC20Case(t testing.TB, r *kit.Run, idx int, seed [2]uint64, readers int) 
 	}
 	stop.Store(true)
 	wg.Wait()
+	for _, k := range reads {
+		e.stat["concurrent_reads"] += k
+	}
 
 	quiesced := e.shutdown()
 	if quiesced && !e.dead {
 		e.checkLookups(true)
 		e.checkNotifications(e.accepted[0])
-		e.judgeReads(reads)
+		e.judgeDeferred()
 	}
 
 	chain.mu.Lock()
@@ -253,13 +306,37 @@ func runC20Case(t testing.TB, r *kit.Run, idx int, seed [2]uint64, readers int) 
 	}
 	res := c20Result{
 		shape:      fmt.Sprintf("%d/%d/%d/%s", cfg.ParsedCache, cfg.AcceptedCache, cfg.MaxLag, e.shape),
-		nontrivial: e.stat["accepts"] >= 3 && e.stat["rejects"] >= 1 && !e.dead && quiesced,
+		nontrivial: e.stat["accepts"] >= 3 && e.stat["rejects"] >= 1 && !e.dead && quiesced && !mode.Stress,
 		stat:       e.stat,
 	}
 	if idx < 3 {
 		res.sample = map[string]any{"cfg": cfg, "steps": steps, "ops": string(e.shape), "accepts": e.stat["accepts"], "rejects": e.stat["rejects"], "max_lag": e.maxSeen}
 	}
 	return res
+}
+
+// stepStress extends the accepted chain by one block (sometimes with a
+// rejected sibling) as fast as the wrapper allows.
+func (e *engine) stepStress() {
+	n := e.parseNew(e.last, false, 0)
+	if n == nil {
+		return
+	}
+	e.verify(n)
+	if e.dead || n.st != stProcessing {
+		return
+	}
+	if e.rng.IntN(8) == 0 {
+		if s := e.parseNew(e.last, false, 0); s != nil {
+			e.verify(s)
+		}
+	}
+	if !e.dead {
+		e.accept(n, false)
+	}
+	if e.rng.IntN(4) == 0 {
+		e.grantSome()
+	}
 }
 
 // stepC20 performs one randomly chosen engine action (ready VM).
@@ -341,16 +418,10 @@ func (e *engine) stepC20() {
 			depth += e.rng.IntN(5)
 		}
 		for d := 0; d < depth && !e.dead; d++ {
-			var cands []*node
-			for _, c := range e.last.children {
-				if c.st == stProcessing {
-					cands = append(cands, c)
-				}
-			}
-			if len(cands) == 0 {
+			n := e.acceptCandidate()
+			if n == nil {
 				break
 			}
-			n := cands[e.rng.IntN(len(cands))]
 			e.accept(n, e.cfg.MaxLag == 0 && e.rng.IntN(2) == 0)
 		}
 		e.repairPref()
@@ -378,10 +449,10 @@ func TestC20(t *testing.T) {
 	p.Install()
 	defer hooks.Uninstall()
 
-	readers := 0
+	mode := c20Mode{Readers: 1}
 	workers := 2
 	if r.Thorough() {
-		readers = 2
+		mode.Readers = 2
 		workers = 6
 	}
 	if rf := r.Replay(); rf != nil {
@@ -389,12 +460,18 @@ func TestC20(t *testing.T) {
 		if err := json.Unmarshal(rf.Witness, &w); err != nil {
 			t.Fatalf("replay witness: %v", err)
 		}
-		runC20Case(t, r, w.Case, w.Seed, readers)
+		if m, ok := w.Cfg.(map[string]any); ok {
+			if raw, err := json.Marshal(m["mode"]); err == nil {
+				_ = json.Unmarshal(raw, &mode)
+			}
+		}
+		runC20Case(t, r, w.Case, w.Seed, mode)
 		r.Eval()
 		r.Finish(0)
 		return
 	}
-	n := r.N(700, 9000)
+	n := r.N(1500, 5000)
+	nStress := r.N(40, 200) // the last nStress cases are reader stress cases
 	master := r.Rand("cases")
 	seeds := make([][2]uint64, n)
 	for i := range seeds {
@@ -413,7 +490,11 @@ func TestC20(t *testing.T) {
 				if i >= n {
 					return
 				}
-				res := runC20Case(t, r, i, seeds[i], readers)
+				m := mode
+				if i >= n-nStress {
+					m.Stress, m.Readers = true, 2
+				}
+				res := runC20Case(t, r, i, seeds[i], m)
 				r.Eval()
 				if res.nontrivial {
 					r.Distinct(res.shape)
@@ -438,5 +519,5 @@ func TestC20(t *testing.T) {
 	}
 	r.Extra("cache_sizes", []int{1, 2, 4})
 	r.Extra("lag_bounds", []int{0, 1, 2, 3, 6, 12})
-	r.Finish(r.N(300, 3000))
+	r.Finish(r.N(500, 2000))
 }
